@@ -869,10 +869,14 @@ def optimize_kl(
             with open(sanity_fn, "a") as f:
                 f.write("\n" + msg)
         if last_fn is not None:
-            with open(last_fn, "wb") as f:
+            # Write to a temporary file and atomically move it into place such
+            # that a crash while pickling never destroys the previous state
+            tmp_fn = last_fn + ".tmp"
+            with open(tmp_fn, "wb") as f:
                 # TODO: Make all arrays numpy arrays as to not instantiate on
                 # the main device when loading
                 pickle.dump((samples, opt_vi_st._replace(config={})), f)
+            os.replace(tmp_fn, last_fn)
         if callback is not None:
             callback(samples, opt_vi_st)
 
